@@ -281,6 +281,7 @@ structure S where
 inductive Act where
   | y (label : Nat) (blocking : Bool)
   | ch (i : Nat)
+  | sw (m : Nat)          -- re-bind `self._handle_event` to handler number m (only meaningful for `Node`s)
   deriving Repr
 
 abbrev Table := List (List Act)
@@ -309,9 +310,53 @@ def runActs (idx : Nat) (ev : E) : List Act → S → PGen S Ev Cmd Reply
     let s1 : S := { s with ctr := s.ctr + 1 }
     .yield s1 c (if b then .yes else .no) (fun r => runActs idx ev t { s1 with seen := r })
   | .ch i :: t, s => .child s i ev (runActs idx ev t s)
+  | .sw _ :: t, s => runActs idx ev t s
 
 def interp (idx : Nat) (tab : Table) (s : S) (ev : E) : PGen S Ev Cmd Reply :=
   runActs idx ev (tab.getD (kindOf idx ev) []) s
+
+/-! #### layer trees of arbitrary depth and branching, with re-bindable handlers -/
+
+/-- the attributes of one layer of a tree: interpreter registers, its index, one program table per handler
+    (`self._handle_event = self._handlers[m]` selects table m), and for each child the owners of the
+    commands of that child's subtree (to route completions) -/
+structure Node where
+  s     : S
+  mode  : Nat
+  idx   : Nat
+  tabs  : List Table
+  route : List (List Nat)
+
+def kindOfN (n : Node) : E → Nat
+  | .plain e => e.label
+  | .completed c _ =>
+    if c.layer = n.idx then 7
+    else match n.route.findIdx? (fun l => l.contains c.layer) with
+      | some i => if i < 3 then 8 + i else 11
+      | none => 11
+
+def runActsN (ev : E) : List Act → Node → PGen Node Ev Cmd Reply
+  | [], n => .done n
+  | .y label b :: t, n =>
+    let c : Cmd := ⟨n.idx, n.s.ctr, label, n.s.seen⟩
+    let n1 : Node := { n with s := { n.s with ctr := n.s.ctr + 1 } }
+    .yield n1 c (if b then .yes else .no) (fun r => runActsN ev t { n1 with s := { n1.s with seen := r } })
+  | .ch i :: t, n => .child n i ev (runActsN ev t n)
+  | .sw m :: t, n => runActsN ev t { n with mode := m }
+
+/-- the handler currently bound: table `mode` of the node as it is NOW -/
+def interpN (n : Node) (ev : E) : PGen Node Ev Cmd Reply :=
+  runActsN ev ((n.tabs.getD n.mode []).getD (kindOfN n ev) []) n
+
+/-- state of a tree of height ≤ d+1: a node and the layers of its children (any number of them) -/
+def TS : Nat → Type
+  | 0 => Node
+  | d + 1 => Node × List (Layer (TS d) Ev Cmd Reply)
+
+/-- the handler of a tree of height ≤ d+1 -/
+def HT : (d : Nat) → Handler (TS d) Ev Cmd Reply
+  | 0 => fun n ev => (interpN n ev).flat
+  | d + 1 => parentHandler interpN (fun _ => HT d) 0
 
 end Prog
 
